@@ -12,6 +12,7 @@ import EEM.Model.Window
 import EEM.Model.BillingAgg
 import EEM.Model.PredictFrame
 import EEM.Model.Metrics
+import EEM.Model.CaltrackMetrics
 import EEM.Gen.MetricFormulas
 import EEM.Gen.BillingAggTable
 import EEM.Model.SettingsTree
@@ -409,6 +410,30 @@ def opMetrics (args : List String) : String :=
     | _, _ => "bad-op"
   | _ => "bad-op"
 
+/-- `ctmetrics <k> <o p>...`: the CalTRACK-hourly `ModelMetrics` of two series on one index (`nan` = missing) -/
+def opCtMetrics (args : List String) : String :=
+  match args with
+  | k :: rest =>
+    let rec rows : List String → Option (List (Option Float × Option Float))
+      | [] => some []
+      | a :: b :: more => do
+        let a ← parseFin a; let b ← parseFin b; let r ← rows more
+        pure ((a, b) :: r)
+      | _ => none
+    match parseNat k, rows rest with
+    | some k, some rs =>
+      let ps := EEM.Model.CaltrackMetrics.merged rs
+      if ps.isEmpty then "ok empty" else
+      "ok " ++ " ".intercalate [
+        s!"observed_length={EEM.Model.CaltrackMetrics.observedLength rs}", s!"predicted_length={EEM.Model.CaltrackMetrics.predictedLength rs}",
+        s!"merged_length={ps.length}", s!"rmse={showFloat (EEM.Model.CaltrackMetrics.rmse ps)}",
+        s!"rmse_adj={showOptF (EEM.Model.CaltrackMetrics.rmseAdj ps k)}", s!"cvrmse={showFloat (EEM.Model.CaltrackMetrics.cvrmse ps)}",
+        s!"cvrmse_adj={showOptF (EEM.Model.CaltrackMetrics.cvrmseAdj ps k)}", s!"nmae={showFloat (EEM.Model.CaltrackMetrics.nmae ps)}",
+        s!"nmbe={showFloat (EEM.Model.CaltrackMetrics.nmbe ps)}", s!"r_squared={showFloat (EEM.Model.CaltrackMetrics.rSquared ps)}",
+        s!"autocorr_resid={showFloat (EEM.Model.CaltrackMetrics.autocorr1 ps)}", s!"n_prime={showFloat (EEM.Model.CaltrackMetrics.nPrime rs)}"]
+    | _, _ => "bad-op"
+  | _ => "bad-op"
+
 /-- `hgate <cv|none> <pn|none> <cv_thr> <pn_thr>` and `dgate <cvrmse> <thr>` -/
 def opHGate (args : List String) : String :=
   match args with
@@ -777,6 +802,7 @@ def step (line : String) : String :=
   | "parseagg" :: args => opParseAgg args
   | "pframe" :: args => opPFrame args
   | "metrics" :: args => opMetrics args
+  | "ctmetrics" :: args => opCtMetrics args
   | "hgate" :: args => opHGate args
   | "dgate" :: args => opDGate args
   | "lock" :: args => opLock args
